@@ -3007,7 +3007,13 @@ MANIFEST = {
             "(7) The integer Conv normaliser (simp_full, int_norm_conv, int_norm_eq) is modelled (IntModel.lean) and compared tree "
             "for tree with the real conversions' right-hand sides: int_norm_sound (value preserved in Z), int_norm_eq_sound (the "
             "returned lhs = 0 is equivalent to a = b), int_norm_canonical_partial (normal form has the polynomial of the term; same "
-            "normal form => same polynomial). NOT proved: same polynomial => same normal form. "
+            "normal form => same polynomial). Towards the converse: the model's order on numeral exponents and on monomial bodies "
+            "(fast_compare: lexicographic size / function-part size / head / structure with base rank and numeral exponent; tied by "
+            "the intsimp stream) is proved a strict total order (int_numCmp_total, int_bodyCmp_total: swap, eq only on identical "
+            "bodies, transitivity) and the multiplicative monomial layer is proved closed (int_mult_monomial_closed: norm_mult_atom / "
+            "norm_mult_monomial keep the monomial shape); every real simp_full output is checked against the normal-form shape isNFI "
+            "by the driver op isnfishape. NOT proved: closure of the additive layer (insMI / addPI / subPI with cancellation) and of "
+            "mulPI / simpFull, idempotence, injectivity, hence same polynomial => same normal form and the canonicity of int_norm_eq. "
             "For (6) and (7) canonicity is compared against the independent exact-rational evaluator on cancellation-rich pairs "
             "every run, as are the decisions of nat_norm, real_norm, int_eq_macro and int_norm_eq; proplogic.norm_full / sort_conj / "
             "sort_disj on member sets (oracle only). Fast evaluation against checked proof term for every Conv class overriding "
